@@ -18,7 +18,7 @@ func runFault() *ShardResult {
 		maxLen = 4
 	}
 	deadline := time.Now().Add(*fBudget)
-	cfgs := []core.Config{{SegSize: 128}, {SegSize: 64}}
+	cfgs := []core.Config{{SegSize: 128}, {SegSize: 64}, {SegSize: 4096}}
 	res.Bounds["workload_len"] = maxLen
 	res.Bounds["configs"] = cfgs
 	res.Bounds["fault_kinds"] = []string{"clean", "after-effect", "short-write"}
